@@ -3,8 +3,8 @@
     index/bang_operator.rs and symbol_map*.rs (coq/model/Scope.v, BangOps.v, Indexer.v).
     Only statements; proofs are in coq/proofs/. *)
 From Coq Require Import List NArith Bool.
-From TG.Model Require Import CoreAst Scope BangOps Indexer.
-From TG.Proofs Require Import ScopeBalance ScopeFrame.
+From TG.Model Require Import CoreAst Scope BangOps Indexer ScopeSpec.
+From TG.Proofs Require Import ScopeBalance ScopeFrame ScopeSim.
 Import ListNotations.
 Open Scope N_scope.
 
@@ -81,3 +81,41 @@ Proof.
   repeat split; try (vm_compute; congruence); try reflexivity.
   intros c mid [<-|[]] E; vm_compute in E; discriminate.
 Qed.
+
+(** C05_resolution, value level (partial: statements are not yet under this theorem).
+    For EVERY value of the fragment [frag_value] (literals, identifiers, lists, bits, dags, pastes, class values
+    with positional and named arguments, !cond, all 50 bang operators incl. the variable-binding !foreach / !filter /
+    !foldl over list literals; no field access), every fuel that suffices, every state [s] that is related to an
+    environment [e] of the declarative resolver ScopeSpec ([Pre]: same current file, identifiers / classes /
+    multiclasses resolve to the same declarations), if every use in the value is in scope according to the
+    specification, then the model records exactly the uses the specification lists, in order, each resolved to
+    the declaration the specification assigns ([Step]: s_uses grows by exactly that list), emits no "not found"
+    diagnostic, leaves the scope stack and everything lookups depend on unchanged. *)
+Theorem C05_resolution_values_partial : forall n v f e s,
+    frag_value v = true -> Pre f e s -> forallb resolved (spec_value f e v) = true ->
+    s_bad (snd (index_value n v s)) = false ->
+    Step s (snd (index_value n v s)) (spec_value f e v).
+Proof. exact value_agrees. Qed.
+Check C05_resolution_values_partial : forall n v f e s,
+    frag_value v = true -> Pre f e s -> forallb resolved (spec_value f e v) = true ->
+    s_bad (snd (index_value n v s)) = false ->
+    Step s (snd (index_value n v s)) (spec_value f e v).
+Print Assumptions C05_resolution_values_partial.
+
+(** Non-vacuity: `!foldl(0, [1, 2], acc, x, !add(acc, x))` in the initial state (related to the empty environment):
+    well-scoped, in the fragment, enough fuel; the two uses `acc` and `x` of the body are recorded and resolve
+    to the identifiers bound by the operator. *)
+Definition ex_foldl : value :=
+  Val (mkR 0 0 40) [Inner (SBang XFoldl None
+    [ex_int 7 8;
+     Val (mkR 0 10 16) [Inner (SList [ex_int 11 12; ex_int 14 15]) []];
+     ex_use (mkId (mkR 0 18 21) [97; 99; 99]);
+     ex_use (ex_id 23 24 120);
+     Val (mkR 0 26 39) [Inner (SBang XAdd None [ex_use (mkId (mkR 0 31 34) [97; 99; 99]); ex_use (ex_id 36 37 120)]
+                                    (mkR 0 26 39)) []]]
+    (mkR 0 0 40)) []].
+Example C05_resolution_values_nonvacuous :
+  frag_value ex_foldl = true /\ Pre 0 env0 st0 /\ forallb resolved (spec_value 0 env0 ex_foldl) = true /\
+  s_bad (snd (index_value 30 ex_foldl st0)) = false /\
+  spec_value 0 env0 ex_foldl = [(mkR 0 31 34, Some (mkR 0 18 21)); (mkR 0 36 37, Some (mkR 0 23 24))].
+Proof. repeat split; try reflexivity; try apply Pre_initial. Qed.
